@@ -224,3 +224,59 @@ def variant_values(F, ety, names_):
 
 def loc(f, x):
     return f.loc(x)
+
+
+# ---------------------------------------------------------------------------------------------
+# time arithmetic shapes shared by C05 / C06 / C07 / C16
+DURATION_SINCE = ('Instant::duration_since', 'Instant::saturating_duration_since', 'Instant::checked_duration_since')
+MINLIKE = ('cmp::Ord::min', 'cmp::min', 'Duration::min', 'cmp::Ord::clamp')
+
+
+def remaining_time(P, term, allow_min=True):
+    """Matches `deadline.duration_since(Instant::now())` (or its saturating / checked equivalents),
+    optionally bounded from above by `min(_, const)`.  Returns (ok, deadline_terms, clamped, detail)."""
+    deadlines, clamped, det = [], False, []
+    roots = P.root(term)
+    if not roots:
+        return False, [], False, 'no source'
+    ok = True
+    for r, p in roots:
+        if norm_path(p) and not all(s in (('v', 'Some'), ('f', 0)) for s in norm_path(p)):
+            ok = False
+            det.append('projected %s' % (list(norm_path(p)),))
+            continue
+        if P.is_call(r, *MINLIKE) and allow_min:
+            args = P.args_of(r)
+            consts = [a for a in args if all(x[0] == 'const' for x, _ in P.root(a))]
+            non = [a for a in args if a not in consts]
+            if len(non) != 1 or not consts:
+                ok = False
+                det.append('min() without a constant bound')
+                continue
+            ok2, d2, _, det2 = remaining_time(P, non[0], allow_min=False)
+            clamped = True
+            if not ok2:
+                ok = False
+                det.append(det2)
+            deadlines += d2
+            continue
+        if P.is_call(r, *DURATION_SINCE):
+            args = P.args_of(r)
+            nowr = P.root(args[1])
+            if not (nowr and all(P.is_call(x, 'Instant::now') for x, _ in nowr)):
+                ok = False
+                det.append('subtrahend is not Instant::now()')
+            if any(P.is_call(x, 'Instant::now') for x, _ in P.root(args[0])):
+                ok = False
+                det.append('minuend is Instant::now() (operands swapped)')
+            deadlines.append(args[0])
+            continue
+        if r[0] == 'const' or (P.unbound(r)[0] == 'call' and P.is_call(r, 'Duration::from_secs', 'Duration::from_millis', 'Duration::new')):
+            # fallback constant of a checked form (unwrap_or(ZERO)): fine only next to a real form
+            det.append('const alternative %s' % P.describe(r))
+            continue
+        ok = False
+        det.append('not a remaining-time expression: %s' % P.describe(r))
+    if not deadlines:
+        ok = False
+    return ok, deadlines, clamped, '; '.join(det)
